@@ -6,6 +6,7 @@
 package main
 
 import (
+	"io"
 	"encoding/hex"
 	"encoding/json"
 	"fmt"
@@ -200,6 +201,19 @@ func doLoad(st kjob.Step, idx int) kjob.Event {
 	f := seccomp.Filter{NoNewPrivs: st.Filter.NNP, Flag: seccomp.FilterFlag(st.Filter.Flag), Policy: *st.Filter.Policy.ToSeccomp()}
 	if st.Filter.HostArch {
 		f.Policy = *hostPolicy(st.Filter)
+	}
+	if st.Filter.Reassembled {
+		func() {
+			defer func() { recover() }()
+			p := &f.Policy
+			real := append([]seccomp.SyscallGroup(nil), p.Syscalls...)
+			for i := range p.Syscalls {
+				p.Syscalls[i].Names, p.Syscalls[i].NamesWithCondtions = []string{"sync"}, nil
+			}
+			p.Assemble()
+			p.Dump(io.Discard)
+			copy(p.Syscalls, real)
+		}()
 	}
 	var err error
 	func() {
